@@ -46,7 +46,7 @@ func init() {
 	reg("C04", ruleOneSchemaFunction, ruleMarshalCoverage, ruleSchemaCanonical, rulePrunes(schemaFiles, "V5", 2), ruleStateMachineSchemaCheck)
 	reg("C01", rulePlan, ruleRecordOrder, ruleDirectionDuality, ruleCppPrimitiveFamilies, ruleStepFraming, ruleEmptyBatchGuard, ruleEndStream, ruleTrivialRecordTrait)
 	reg("C16", ruleEndStream, ruleStepFraming)
-	reg("C17", ruleEmptyBatchGuard, ruleStepFraming)
+	reg("C17", ruleEmptyBatchGuard, ruleStepFraming, ruleFallbackBatchTruncates)
 	reg("C15", ruleStateMachineSchemaCheck, ruleMarshalCoverage)
 	reg("C03", ruleEmittedSymbols, rulePlan, ruleJsonKinds, ruleTrivialRecordTrait, ruleJsonNamesAreModelNames)
 	reg("C08", ruleEmittedSymbols, ruleSwitchDefaults(backendFiles, "P4", 25), ruleReservedTables, ruleIdentifierHelpers, ruleDependenciesFirst, ruleOptionGating, ruleUniquenessVsMangling)
